@@ -367,8 +367,34 @@ func rsemScenario(c *Ctx, sh *shard, scen int) {
 	nRows := 8 + c.intn(18)
 	rows := make([]*e2eRow, nRows)
 	near := map[string][]int64{}
+	// range-merge batches are fixed up front; in its "nested" variant batch k holds one row below and
+	// one row above everything in the batches before it, and its rows are longer, so that the merge
+	// (which streams smaller blocks first) folds an enclosing range into the accumulated one each time
+	var rmBatch, rmPos []int
+	var rmSizes []int
+	nested := rangeMerge && c.chance(0.6)
+	if rangeMerge {
+		for i := 0; i < nRows; {
+			n := 1 + c.intn(3)
+			if nested {
+				n = 2 + c.intn(2)
+			}
+			if i+n > nRows {
+				n = nRows - i
+			}
+			for j := 0; j < n; j++ {
+				rmBatch, rmPos = append(rmBatch, len(rmSizes)), append(rmPos, j)
+			}
+			rmSizes = append(rmSizes, n)
+			i += n
+		}
+	}
+	nestStep := []int64{1, 7, 1000, 1 << 40}[c.intn(4)]
 	for i := range rows {
 		m := c.genRow()
+		if nested {
+			m = map[string]any{"pad": rsPad(i, 2+6*rmBatch[i])}
+		}
 		m["_id"] = i
 		tr := &typedRow{id: i, row: m, vals: map[string]numVal{}}
 		delete(m, "p")
@@ -402,6 +428,18 @@ func rsemScenario(c *Ctx, sh *shard, scen int) {
 			default:
 				nv = numVal{v: z, coq: gInt(false, z), kind: "int64", numeric: true, jsonOK: true}
 			}
+			if nested {
+				k := int64(rmBatch[i] + 1)
+				switch rmPos[i] {
+				case 0:
+					z = -k*nestStep - int64(c.intn(2))
+				case 1:
+					z = k*nestStep + int64(c.intn(2))
+				default:
+					z = int64(c.intn(int(2*k+1))) - k
+				}
+				nv = numVal{v: z, coq: gInt(false, z), kind: "int64", numeric: true, jsonOK: true}
+			}
 			m["n"] = nv.v
 			tr.vals["n"] = nv
 			if lo, hi, ok := bs.ConvertToMinMaxInt64(nv.v); ok {
@@ -426,7 +464,7 @@ func rsemScenario(c *Ctx, sh *shard, scen int) {
 			n = 3 * (1 + c.intn(2))
 		}
 		if rangeMerge {
-			n = 1 + c.intn(3)
+			n = rmSizes[rmBatch[i]]
 		}
 		if i+n > len(rows) {
 			n = len(rows) - i
@@ -561,6 +599,8 @@ func rsemScenario(c *Ctx, sh *shard, scen int) {
 	prof := "random"
 	if copyHeavy {
 		prof = "copy-heavy"
+	} else if nested {
+		prof = "range-merge-nested"
 	} else if rangeMerge {
 		prof = "range-merge"
 	}
@@ -679,6 +719,18 @@ func rsemScenario(c *Ctx, sh *shard, scen int) {
 			}
 			c.count([]string{"C18"}, fmt.Sprintf("meta:%v:%v", ob.meta.MinMaxIndexes, ob.meta.PartitionID), len(ob.meta.MinMaxIndexes) > 0, nil)
 		}
+	}
+	{
+		nb, maxRows := 0, 0
+		for _, of := range files {
+			nb += len(of.blocks)
+			for _, ob := range of.blocks {
+				if len(ob.rows) > maxRows {
+					maxRows = len(ob.rows)
+				}
+			}
+		}
+		c.dist("e2e_layout", fmt.Sprintf("%s files=%d blocks=%d largest_block_rows=%d of %d", prof, len(files), nb, maxRows, len(rows)))
 	}
 	if stored != len(rows) {
 		c.violation("e2e-row-count", fmt.Sprintf("stored %d rows, ingested and acknowledged %d", stored, len(rows)), nil)
@@ -977,4 +1029,13 @@ func rsBucket(n, total int) string {
 	default:
 		return "some"
 	}
+}
+
+// rsPad returns n hardly compressible hex characters that depend on i.
+func rsPad(i, n int) string {
+	var sb strings.Builder
+	for x := uint64(i + 1); sb.Len() < n; x++ {
+		fmt.Fprintf(&sb, "%x", x*0x9E3779B97F4A7C15)
+	}
+	return sb.String()[:n]
 }
